@@ -147,6 +147,13 @@ class _Endpoint:
             return
         if self.ack_mode == "now":
             self._ack(n, sid)
+        elif self.ack_mode == "conn":
+            # flow-control policy "stream windows are opened by SETTINGS_INITIAL_WINDOW_SIZE changes only" (RFC 9113
+            # 6.9.2): hand back connection-level credit at once, never send a stream-level WINDOW_UPDATE
+            try:
+                self.conn.increment_flow_control_window(n)
+            except (h2.exceptions.ProtocolError, ValueError):
+                pass
         else:
             self._unacked.append((n, sid))
 
@@ -419,6 +426,10 @@ class H2Origin(_Endpoint):
             if ch.get("after") == j and not ch.get("_done"):
                 ch["_done"] = True
                 self.tasks.append(self.world.loop.create_task(self._change_mcs(ch), name="sim-origin-mcs"))
+        for ch in self.spec.get("iws_changes", []) or []:
+            if ch.get("after") == j and not ch.get("_done"):
+                ch["_done"] = True
+                self.tasks.append(self.world.loop.create_task(self._change_iws(ch), name="sim-origin-iws"))
         g = self.spec.get("goaway")
         if g and g.get("after") == j and not self._goaway_done:
             self._goaway_done = True
@@ -427,6 +438,20 @@ class H2Origin(_Endpoint):
         if tc and tc.get("after") == j and not tc.get("_done"):
             tc["_done"] = True
             self.tasks.append(self.world.loop.create_task(self._tcp_close(tc), name="sim-origin-close"))
+
+    async def _change_iws(self, ch):
+        """Re-open (or shrink) every stream's window with a SETTINGS_INITIAL_WINDOW_SIZE change, in a segment of its own."""
+        if ch.get("delay"):
+            await asyncio.sleep(ch["delay"])
+        if self.closed or self.proto_error or self.goaway_tx is not None or self.tls.eof:
+            return
+        self.flush()
+        if not self.send_guard(self.conn.update_settings, {SC.INITIAL_WINDOW_SIZE: int(ch["iws"])}):
+            return
+        self.send_settings({})
+        self.world.net.fired("origin_iws_change")
+        self.note("iws_tx", int(ch["iws"]))
+        self.flush()
 
     async def _change_mcs(self, ch):
         if ch.get("delay"):
@@ -675,6 +700,12 @@ class H2Client(_Endpoint):
         if t == "P":
             self.send_guard(c.ping, b"verifsim")
             return
+        if t == "S":
+            # SETTINGS_INITIAL_WINDOW_SIZE change: (re)opens every stream window without any stream WINDOW_UPDATE
+            if self.send_guard(c.update_settings, {SC.INITIAL_WINDOW_SIZE: int(fr["iws"])}):
+                self.world.net.fired("client_iws_change")
+                self.note("iws_tx", int(fr["iws"]))
+            return
         st = self.spec["streams"][idx]
         rec = self.sent_rec(idx)
         if t == "H":
@@ -694,7 +725,8 @@ class H2Client(_Endpoint):
                 self.note("tx_headers", idx, bool(fr.get("end")))
             return
         sid = self.sid_of.get(idx)
-        if sid is None or rec["reset"] is not None or rec["ended"]:
+        # (a client may still cancel a request it has sent completely, as long as the answer is outstanding)
+        if sid is None or rec["reset"] is not None or (rec["ended"] and t != "R"):
             rec["skipped"] += 1
             return
         if t == "D":
